@@ -113,8 +113,25 @@ def lengths_for(rate, rng, malformed=False):
             if n % 16 == 0:
                 n += num
         else:
-            return ('fraction', 200)
+            # a sample count that is no integer, on either side of a *legal* segment length
+            legal = q * rng.randrange(lo, lo + max(2, 160 // q))
+            return ('fraction', legal, rng.choice(FRACTIONS))
     return n
+
+
+# fractional parts of a sample count (as exact fractions): both sides of the integers, far from and close to
+# them, inside (1e-11) and outside (1e-9) the 1e-10 tolerance of get_waveform_length
+FRACTIONS = [[1, 10], [2, 5], [3, 5], [9, 10], [1, 3], [2, 3], [1, 2], [7, 10], [99, 100], [1, 100],
+             [1, 10 ** 9], [10 ** 9 - 1, 10 ** 9], [1, 10 ** 11], [10 ** 11 - 1, 10 ** 11]]
+
+
+def fractional_duration(rate, legal, frac):
+    """duration (time units, exact fraction) of `legal + f` samples for f < 1/2 and `legal - 1 + f` samples for
+    f >= 1/2: the nearest integer sample count is the legal segment length `legal`"""
+    f = F(frac[0], frac[1])
+    samples = legal + f if f < F(1, 2) else legal - 1 + f
+    d = samples * F(rate[1], rate[0])
+    return [d.numerator, d.denominator]
 
 
 def gen_channel_spec(rng, n, rate, marker, vmax):
@@ -152,10 +169,10 @@ def gen_wf_spec(rng, rate, vmax, malformed=False, extra=False):
     n = lengths_for(rate, rng, malformed)
     frac = None
     if isinstance(n, tuple):
-        frac, n = n
+        _tag, n, frac = n
     spec = {'n': n, 'ch': {}}
     if frac:
-        spec['dur'] = [n * rate[1] * 3 + 1, rate[0] * 3]      # not an integer number of samples
+        spec['dur'] = fractional_duration(rate, n, frac)      # not an integer number of samples
     for ch in VOLT:
         spec['ch'][ch] = gen_channel_spec(rng, n, rate, False, vmax)
     for ch in MARK:
@@ -474,9 +491,13 @@ class Source:
         # expected samples
         for wf, i in sorted(self.obj_ids.values(), key=lambda p: p[1]):
             nf = wf.duration * rate
+            nf = F(int(nf.numerator), int(nf.denominator))
             n = int(round(nf))
-            if abs(nf - n) > 1e-10 or n <= 0:
+            # compatible with the sample rate = a whole number of samples up to the documented 1e-10 tolerance
+            # (compared exactly); anything else has to be rejected, never rounded to a playable length
+            if abs(nf - n) > F(1, 10 ** 10) or n <= 0:
                 self.integral = False
+                self.fractional = getattr(self, 'fractional', []) + [str(nf)]
                 self.wf_lines.append(None)
                 continue
             if n % 16 or n < 192:
@@ -630,12 +651,24 @@ def run_impl(q, prog, case):
                for tab in tp.get_sequencer_tables()]
     adv = [[int(r), int(n), int(j)] for (r, n, j) in tp.get_advanced_sequencer_table()]
     m = 'single' if tp.waveform_mode == tb.TaborSequencing.SINGLE else 'advanced'
-    return 'ok', {'mode': m, 'segs': segs, 'seqtabs': seqtabs, 'adv': adv}
+    return 'ok', {'mode': m, 'segs': segs, 'seqtabs': seqtabs, 'adv': adv,
+                  'seglens': [int(s.num_points) for s in segments]}
 
 
 # ---------------------------------------------------------------------------------------------
 # one batch of cases: implementation, model, judge
 # ---------------------------------------------------------------------------------------------
+
+def _tree_duration(case, src):
+    """exact duration of the source program in time units (from the real waveform objects)"""
+    durs = {i: F(int(wf.duration.numerator), int(wf.duration.denominator)) for wf, i in src.obj_ids.values()}
+
+    def go(t):
+        if t[0] == 'w':
+            return t[1] * durs[t[2]]
+        return t[1] * sum((go(c) for c in t[2:]), F(0))
+    return go(src.tree_obj)
+
 
 def same_layout(model, impl):
     """model tables over waveform ids vs implementation tables over segment indices, equal up to a consistent
@@ -772,8 +805,20 @@ class Batch:
                 ctx.count(label + ':replayed-samples', int(verdict[1]))
         elif status == 'ok':
             # the implementation produced a device program although the source cannot even be sampled
-            ctx.violation('TaborProgram accepted a program whose piece lengths are no whole number of samples',
-                          dict(replay))
+            # ... i.e. it was altered (a piece rounded to a playable length) instead of rejected
+            seg_len = impl['seglens']
+            try:
+                played = sum(ar * sum(r * seg_len[el] for r, el, _j in impl['seqtabs'][no - 1])
+                             for ar, no, _aj in impl['adv'])
+            except Exception:  # noqa
+                played = None
+            ctx.violation('TaborProgram accepted a program with a piece of %s samples (no whole number of samples at '
+                          'this sample rate): rounded instead of rejected, the device plays %s samples for a source '
+                          'of %s samples' % (', '.join(getattr(src, 'fractional', ['?'])), played,
+                                             F(*case['rate']) * _tree_duration(case, src)),
+                          dict(replay, tables={'seqtabs': impl['seqtabs'], 'adv': impl['adv']}))
+            ctx.count(label + ':violation:non-integer-length-accepted')
+            ctx.case(e['mline'], nontrivial=True)
             return
         if status != 'ok' and e['range_at'] is not None and expect == 'ok':
             r = answers[e['range_at']]
@@ -938,6 +983,24 @@ def twin_cases():
                            'cfg': dict(cfg, channels=chans, limits=lim)}
 
 
+def fraction_cases():
+    """piece durations that are no whole number of samples, fractional parts on both sides of legal segment
+    lengths: alone and inside an otherwise valid program. Expected: rejection, except within the 1e-10 tolerance"""
+    cfg = {'channels': ['A', 'B'], 'markers': ['M', 'N'], 'amps': [0.5, 0.5], 'offs': [0.0, 0.0],
+           'trafos': ['id', 'id'], 'limits': [1, 16384], 'mode': 'auto'}
+    for rate in ([1, 1], [12, 5], [3, 2]):
+        q = rate_quantum(rate)
+        good = {'n': 4 * q if 4 * q >= 192 else 192 // q * q + q, 'ch': SMALL_WF[0]['ch']}
+        for legal in sorted({(192 + q - 1) // q * q, (208 + q - 1) // q * q + q}):
+            for frac in FRACTIONS:
+                bad = {'n': legal, 'ch': SMALL_WF[1]['ch'], 'dur': fractional_duration(rate, legal, frac)}
+                for tree in (['w', 1, 1, False],
+                             ['l', 1, False, [['w', 2, 0, False], ['w', 1, 1, False], ['w', 1, 0, False]]],
+                             ['l', 1, False, [['l', 2, False, [['w', 1, 0, False], ['w', 2, 1, False]]], ['w', 3, 0, False]]]):
+                    yield {'rate': rate, 'pool': [good, bad], 'tree': tree, 'pt': None, 'family': 'fraction',
+                           'cfg': dict(cfg)}
+
+
 def ids_cases():
     """integer channel / marker identifiers (0 included) on every output"""
     cfg = {'channels': ['A', 'B'], 'markers': ['M', 'N'], 'amps': [0.5, 0.5], 'offs': [0.0, 0.0],
@@ -1013,6 +1076,7 @@ def run(ctx: core.Ctx):
     run_cases(ctx, 'volscope', list(volscope_cases()), 400)
     run_cases(ctx, 'twins', list(twin_cases()), 400)
     run_cases(ctx, 'ids', list(ids_cases()), 400)
+    run_cases(ctx, 'fraction', list(fraction_cases()), 400)
     # ---- random structured cases
     for family, nq, nt in (('tree', 300, 20000), ('pt', 80, 5000), ('volatile', 60, 4000), ('malformed', 60, 3000),
                            ('compat', 50, 3000)):
